@@ -102,7 +102,7 @@ func (p *tlsConfigPool) LoadTLSConfig(config TLSConfig) (*tls.Config, error) {
 	case config.GetTrustedCertificateAuthorityFile() != "":
 		var err error
 		ca, err = p.caWatcher.WatchFile(
-			NewFileReader(config.GetTrustedCertificateAuthorityFile()),
+			&pooledFileReader{Reader: NewFileReader(config.GetTrustedCertificateAuthorityFile()), id: id},
 			config.GetTrustedCertificateAuthorityRefreshInterval().AsDuration(),
 			func(data []byte) { p.updateCA(id, data) },
 		)
@@ -172,6 +172,18 @@ func (p *tlsConfigPool) updateCA(id string, caPem []byte) {
 	p.configs[id] = tlsConfig
 	p.mu.Unlock()
 }
+
+// pooledFileReader identifies a watched CA file by the pooled TLS config that watches it. The file watcher
+// keeps one watcher per reader ID: with the plain file name as the ID, a second TLS config watching the same
+// file (for example with another refresh interval) would stop the watcher of the first one, which would then
+// never see a new CA.
+type pooledFileReader struct {
+	Reader
+	id string
+}
+
+// ID implements Reader.
+func (r *pooledFileReader) ID() string { return r.id + ":" + r.Reader.ID() }
 
 // tlsConfigEncoder is the internal representation of a TLSConfig.
 // It handles some useful methods for the TLSConfig.
